@@ -53,19 +53,28 @@ PROPERTIES = {
         "rule": ("tie-heavy adaptive histories on CQueue (bursts of equal timestamps, adds at the current instant from between fetches, ties straddling a year "
                  "wrap) checked against an exact sequential model of the stated rule (current-instant group first in scheduling order, then scheduling order), "
                  "metamorphic replays of the same history on other (n,t), with an unrelated far-future population and after a junk allocation phase, and every "
-                 "operation sequence of the enumeration depth on 4 tiny configurations. Non-trivial = a fetch was served from a group of >= 2 equal timestamps; "
-                 "distinct = hash of (config, operation list)."),
+                 "operation sequence of the enumeration depth on 4 tiny configurations; the same model on Runtime<App> event forests (stage runtime); and at the net "
+                 "level (stage net) rings of 1..4 modules executing generated emission trees (schedule_at / schedule_in / send / send_at / send_in over "
+                 "channel-less chains with 0..2 transit gates, target instants on a coarse grid aligned with bucket / year boundaries): messages scheduled from "
+                 "earlier instants for one instant are handled in scheduling order, everything a message triggers within its instant is handled before the next "
+                 "such message, same-path emissions for the current instant keep their order, each message exactly once at its instant, and the whole handling "
+                 "order is identical under 2 other queue parameterisations, with bystander modules / events and after a junk allocation phase. "
+                 "Non-trivial = a fetch was served from a group of >= 2 equal timestamps (net: a case with an ordered pair to judge); "
+                 "distinct = hash of (config, operation list) / of the case."),
         "exhaustive_part": "all operation sequences of length enumeration_depth over add(+0,1,2,3,4,8 ns)/cancel/fetch on (n,t) in {(1,1),(2,1),(2,2),(3,2)} ns",
         "assumptions": ["claimed for the default feature set (calendar-queue backend), as the property states"],
         "stages": [
             native("queue", "cqmon", "c03", tiers=QT, timeout={"quick": 900, "thorough": 5400}),
             native("runtime", "desmon", "c03rt", tiers=QT, timeout={"quick": 900, "thorough": 5400}, counter_prefix="rt_"),
+            native("net", "desmon", "c03net", tiers=QT, timeout={"quick": 900, "thorough": 5400}),
         ],
         "floor": {
             "quick": {"fetches_from_a_tie_group": 100000, "adds_at_current_time": 50000, "year_wraps": 5000, "metamorphic_replays": 3000,
-                      "enumerated_sequences": 1000000, "rt_tie_groups_dispatched": 100000, "rt_metamorphic_replays": 5000},
+                      "enumerated_sequences": 1000000, "rt_tie_groups_dispatched": 100000, "rt_metamorphic_replays": 5000,
+                      "net_root_pairs_same_instant": 1000000, "net_zero_delay_followups_before_next_root": 1000000, "net_current_instant_pairs": 1000000},
             "thorough": {"fetches_from_a_tie_group": 2000000, "adds_at_current_time": 1000000, "year_wraps": 100000, "metamorphic_replays": 60000,
-                         "enumerated_sequences": 50000000, "rt_tie_groups_dispatched": 2000000, "rt_metamorphic_replays": 100000},
+                         "enumerated_sequences": 50000000, "rt_tie_groups_dispatched": 2000000, "rt_metamorphic_replays": 100000,
+                         "net_root_pairs_same_instant": 20000000, "net_zero_delay_followups_before_next_root": 20000000, "net_current_instant_pairs": 20000000},
         },
     },
     "C15": {
